@@ -55,6 +55,36 @@ def repo_hash():
     return h.hexdigest()[:16]
 
 
+def executable_lines(path):
+    """Line numbers that carry code (statement starts) according to the compiler."""
+    try:
+        with open(path) as fh:
+            code = compile(fh.read(), path, "exec")
+    except Exception:  # noqa: BLE001
+        return set()
+    out, todo = set(), [code]
+    while todo:
+        c = todo.pop()
+        for _, _, ln in c.co_lines():
+            if ln is not None and ln > 0:
+                out.add(ln)
+        for k in c.co_consts:
+            if hasattr(k, "co_lines"):
+                todo.append(k)
+    return out
+
+
+def reach_gaps(reach):
+    """Per file of /repo/src/lcm: executable lines no worker of this run executed."""
+    gaps = {}
+    root = os.path.join(REPO, "src", "lcm")
+    for f, hit in sorted(reach.items()):
+        ex = executable_lines(os.path.join(root, f))
+        miss = sorted(ex - set(hit))
+        gaps[f] = {"executable": len(ex), "executed": len(ex & set(hit)), "not_executed": miss[:400]}
+    return gaps
+
+
 def load_known():
     p = os.path.join(VERIF, "known_findings.json")
     if not os.path.exists(p):
@@ -261,6 +291,7 @@ def main(argv=None):
         "margins": maxima,
         "feature_histogram": feats,
         "reach_lines_executed": {f: len(s) for f, s in sorted(reach.items())},
+        "reach_gaps": reach_gaps(reach),
         "known_findings_hit": [
             {"key": k, "n": h["n"], "example": h["example"]} for k, h in known_hits.items()
         ],
